@@ -61,18 +61,25 @@ Definition join_objmap (o : objmap) : bool :=
   && (match m_tt (o_tm o), o_lang o, o_dt o with None, None, None => true | _, _, _ => false end)
   && (match o_joins o with [] => false | _ => true end)
   && forallb (fun cp => ueqb (undelimit_ident (fst cp)) (fst cp) && ueqb (undelimit_ident (snd cp)) (snd cp)) (o_joins o).
+(* R2RML's plain referencing object map: no join condition (the parent's subject term of the same row) *)
+Definition self_objmap (o : objmap) : bool :=
+  mkind_eqb (m_kind (o_tm o)) KParent
+  && (match m_tt (o_tm o), o_lang o, o_dt o with None, None, None => true | _, _, _ => false end)
+  && (match o_joins o with [] => true | _ => false end).
+Definition ref_objmap (o : objmap) : bool := join_objmap o || self_objmap o.
 (* a predicate-object map holds ordinary object maps only, or referencing object maps only *)
 Definition jplain_pom (p : pom) : bool :=
-  forallb plain_map (p_preds p) && (forallb plain_objmap (p_objs p) || forallb join_objmap (p_objs p)) && forallb plain_graph (p_graphs p).
+  forallb plain_map (p_preds p) && (forallb plain_objmap (p_objs p) || forallb ref_objmap (p_objs p)) && forallb plain_graph (p_graphs p).
 Definition jplain_tm (t : tmapdef) : bool :=
   plain_map (t_subj t) && forallb plain_graph (t_sgraphs t) && forallb jplain_pom (t_poms t)
   && match t_sjoins t with [] => true | _ => false end.
-(* a referencing object map names a triples map of the document; it is not one of those the parser rewrites into a plain term map
-   (same source and every condition comparing a column with itself) *)
+(* a referencing object map names a triples map of the document; one with join conditions is not among those the parser rewrites
+   into a plain term map (same source and every condition comparing a column with itself); one without reads the same logical source *)
 Definition parent_ok (d : document) (t : tmapdef) (o : objmap) : bool :=
-  if join_objmap o then
+  if ref_objmap o then
     match find (fun p => ueqb (t_id p) (m_value (o_tm o))) d with
-    | Some p => negb (ueqb (t_src t) (t_src p) && forallb (fun cp => ueqb (fst cp) (snd cp)) (o_joins o))
+    | Some p => if self_objmap o then ueqb (t_src t) (t_src p)
+                else negb (ueqb (t_src t) (t_src p) && forallb (fun cp => ueqb (fst cp) (snd cp)) (o_joins o))
     | None => false
     end
   else true.
